@@ -73,5 +73,5 @@ Definition dec_gt (ns : nat) (bs : list N) : rres (list (option genotype)) :=
     if code =? 1 then
       if len =? 0 then ROk (repeat None ns)
       else dec_gt_samples ns (Z.to_nat len) r
-    else RPanic                                          (* todo!("unhandled type") *)
+    else RErr                                            (* TypeMismatch *)
   end.
